@@ -107,6 +107,10 @@ def extract(repo, config, target_dir=None, force=False, quiet=True):
         fcntl.flock(lk, fcntl.LOCK_EX)
         if os.path.exists(out) and not force:
             info["cached"] = True
+            try:
+                os.utime(out, None)   # recently used: keeps it out of prune_cache's reach
+            except OSError:
+                pass
         else:
             # never let cargo's freshness cache skip the wrapper
             for fp in glob.glob(os.path.join(tdir, "debug", ".fingerprint", "varpro-*")):
@@ -174,6 +178,10 @@ def extract_dep(repo, crate="levenberg_marquardt", pkg="levenberg-marquardt", qu
         fcntl.flock(lk, fcntl.LOCK_EX)
         if os.path.exists(out):
             info["cached"] = True
+            try:
+                os.utime(out, None)
+            except OSError:
+                pass
         else:
             for fp in glob.glob(os.path.join(tdir, "debug", ".fingerprint", pkg + "-*")):
                 shutil.rmtree(fp, ignore_errors=True)
@@ -193,10 +201,22 @@ def extract_dep(repo, crate="levenberg_marquardt", pkg="levenberg-marquardt", qu
     return out, info
 
 
-def prune_cache(keep=40):
+def prune_cache(keep=60, min_age=1800):
+    """drop the least recently used fact files; never one used in the last half hour (another
+    check may be reading it right now)"""
+    import time
     d = os.path.join(CACHE, "facts")
-    fs = sorted(glob.glob(os.path.join(d, "*.json")), key=os.path.getmtime)
-    for f in fs[:-keep]:
+    now = time.time()
+    fs = []
+    for f in glob.glob(os.path.join(d, "*.json")):
+        try:
+            fs.append((os.path.getmtime(f), f))
+        except OSError:
+            pass
+    fs.sort()
+    for mt, f in fs[:-keep]:
+        if now - mt < min_age:
+            continue
         try:
             os.remove(f)
         except OSError:
